@@ -31,9 +31,8 @@ ProjOf(val) == CASE val.ty = "date" -> OkDate(val.dn)
                  [] val.ty = "dt"   -> OkDt(Inst(val.dn, val.sod, val.ns), val.off)
                  [] val.ty = "time" -> OkTime([sod |-> val.sod, ns |-> val.ns], val.off)
 
-\* loading a DateTime whose local view leaves the representable range is in the don't-care margin
-InitExpected(val) == IF val.ty = "dt" /\ ~LocalOf(Inst(val.dn, val.sod, val.ns), val.off).ok
-                     THEN {AnyOutcome} ELSE {ProjOf(val)}
+\* (a DateTime whose local view leaves the representable range is built by arithmetic, see harness model::dt_at)
+InitExpected(val) == {ProjOf(val)}
 Expected(e) == IF e.op = "init" THEN InitExpected(e.val) ELSE Allowed(e, reg[e.a], reg[e.b])
 
 \* lexicographic order on clock readings <<dn, sod, ns>>
